@@ -3,6 +3,7 @@ package sim
 import (
 	"fmt"
 	"os"
+	"strings"
 	"testing"
 	"time"
 
@@ -158,8 +159,50 @@ func recoverAndJudge(s *Sim, secondCrashCycle int) []Violation {
 		roots[tk.S("root_promise_id")] = true
 	}
 	ref := times[len(times)-4]
-	if bad := quiescent(s.Snaps[s.CurSnap()], refTimes{promises: ref, locks: ref, schedules: ref, tasks: ref}, len(roots) <= s.Cfg.TaskBatchSize); len(bad) > 0 {
-		add("D4", "14 cycles after the restart the stored backlog has not been worked off: %v (config %s)", bad, s.Cfg)
+	bad := quiescent(s.Snaps[s.CurSnap()], refTimes{promises: ref, locks: ref, schedules: ref, tasks: ref}, len(roots) <= s.Cfg.TaskBatchSize)
+	// "resumes from the stored state" is not a convergence claim (that is C11): a sweep that runs at its full batch
+	// size in every cycle after ref has resumed, however large the arrivals (per-second schedules with a batch
+	// size of one out-produce it, and the promise sweep reads in no particular order). Only a sweep that leaves
+	// overdue rows behind while serving fewer than its batch size has not resumed.
+	served := func(prefix, table string, isServed func(c core.Change) bool) int {
+		perCycle := map[string]int{}
+		for _, tx := range s.Txs {
+			if tx.Tick <= ref || !strings.HasPrefix(tx.ReqId, prefix) {
+				continue
+			}
+			perCycle[tx.ReqId] += 0
+			for _, c := range tx.Diff {
+				if c.Table == table && isServed(c) {
+					perCycle[tx.ReqId]++
+				}
+			}
+		}
+		m := -1
+		for _, n := range perCycle {
+			if m < 0 || n < m {
+				m = n
+			}
+		}
+		if len(perCycle) < 3 {
+			return 0
+		}
+		return m
+	}
+	promSat := served("TimeoutPromises:", "promises", func(c core.Change) bool {
+		return c.Before != nil && c.After != nil && c.Before.I("state") == pPending && c.After.I("state") != pPending
+	}) >= s.Cfg.PromiseBatchSize
+	schedSat := served("SchedulePromises:", "schedules", func(c core.Change) bool {
+		return c.Before != nil && c.After != nil && c.Before.I("next_run_time") != c.After.I("next_run_time")
+	}) >= s.Cfg.ScheduleBatchSize
+	var really []string
+	for _, b := range bad {
+		if (strings.HasPrefix(b, "promise ") && promSat) || (strings.HasPrefix(b, "schedule ") && schedSat) {
+			continue
+		}
+		really = append(really, b)
+	}
+	if len(really) > 0 {
+		add("D4", "14 cycles after the restart the stored backlog has not been worked off: %v (config %s)", really, s.Cfg)
 	}
 	// nothing that was committed at the crash is lost or altered other than by legitimate background transitions:
 	// promises keep their creation half and completed promises their completion half (C01 judged over the whole trace)
